@@ -1,4 +1,5 @@
 import WhVerif.Lemmas.C16
+import WhVerif.Lemmas.C16UF
 /-!
 # C16 — results depend on the input only (the part that is logic)
 
@@ -105,5 +106,15 @@ theorem sorted_set_enumeration_independent (l₁ l₂ : List (List Nat)) (h₁ :
 
 example : sortedNames [[99, 2], [97], [99, 1]] = sortedNames [[99, 1], [99, 2], [97]] :=
   sorted_set_enumeration_independent _ _ (by decide) (by decide) (by intro x; simp only [List.mem_cons, List.not_mem_nil, or_false]; constructor <;> (intro h; rcases h with h | h | h <;> simp [h]))
+
+/-- The component finder (phase sets, families) answers with a function of the SET of merged pairs: any two
+histories — merges in any order, finds (with their path compression) interleaved anywhere — that merged the same
+pairs give the same representative for every element.  (From C18: `find` = minimum of the connected class.) -/
+theorem components_order_independent (values : List Nat) (ops1 ops2 : List WhVerif.C18.UOp)
+    (hsame : ∀ p, p ∈ WhVerif.C18.UF.mergedPairs (WhVerif.C18.UF.init values) ops1 ↔
+                  p ∈ WhVerif.C18.UF.mergedPairs (WhVerif.C18.UF.init values) ops2) (x : Nat) :
+    ((WhVerif.C18.UF.exec (WhVerif.C18.UF.init values) ops1).find x).map (fun r => r.2)
+      = ((WhVerif.C18.UF.exec (WhVerif.C18.UF.init values) ops2).find x).map (fun r => r.2) :=
+  WhVerif.C16UF.find_order_independent values ops1 ops2 hsame x
 
 end WhVerif.Props.C16
